@@ -3,7 +3,7 @@
   `validate_price_system`, pabutools/utils.py: `round_cmp`).
 
   `validate` mirrors the code: the conditions C0a, C0b, C1, C2, C3, C4, C5 / S5, the rounded comparisons
-  with `round_cmp(·, ·, 2)`;  `exact` is the same list of conditions with exact comparisons (the
+  with `round_cmp(·, ·, 2)` (the sign of the difference rounded to 2 decimals);  `exact` is the same list of conditions with exact comparisons (the
   definition of a (stable) price system the validator is meant to decide up to its rounding tolerance).
 -/
 import PabuModel.Sat
@@ -20,8 +20,10 @@ def roundHalfEven (y : Rat) : Int :=
 /-- Python's `round(x, 2)` on an exact rational (gmpy2 `mpq`, `Fraction`): half-even to 2 decimals -/
 def round2 (x : Rat) : Rat := (roundHalfEven (x * 100) : Rat) / 100
 
-/-- `round_cmp(a, b, CHECK_ROUND_PRECISION)` -/
-def roundCmp (a b : Rat) : Rat := round2 a - round2 b
+/-- `round_cmp(a, b, CHECK_ROUND_PRECISION)`: `round(a - b, 2)` — the DIFFERENCE is rounded (repaired `round_cmp`; it used to
+    return `round(a, 2) - round(b, 2)`, which tells apart two numbers a float error apart when they straddle a rounding
+    boundary) -/
+def roundCmp (a b : Rat) : Rat := round2 (a - b)
 
 /-- a voter as the validator sees them: the ballot (`c in i`) and the payment function `pf[idx]` -/
 structure PVoter where
